@@ -278,6 +278,16 @@ def check_all(ctx, tags, ran, periods, ev1, ev2, evo, rec_metric, rec_obs, rec_l
                     break
             if vals and (ev.get_value(nm) != vals[-1] or ev.last.get(nm) != vals[-1]):
                 bad.append(f"last/{nm}: get_value()={ev.get_value(nm)!r} last={ev.last.get(nm)!r} vs {vals[-1]!r}")
+        # `last` is handed out as a dict of the latest values: a caller rounding / editing it for display must not rewrite
+        # the history the other accessors (and an early stopper) read
+        if want_ep and isinstance(ev.last, dict) and ev.last:
+            for k_ in list(ev.last):
+                ev.last[k_] = -31337.0
+            for nm in names:
+                vals = [v for _, v in rec_metric[nm]]
+                if vals and (ev.get_value(nm, -1) != vals[-1] or list(getattr(ev, nm))[-1] != vals[-1]):
+                    bad.append(f"editing the dict handed out as `last` changed the recorded history of {nm!r}")
+            ev.last = {nm: rec_metric[nm][-1][1] for nm in names if rec_metric[nm]}
         if bad:
             ctx.violation("metric-records", "MetricEvaluator records disagree with what was computed: " + "; ".join(bad[:3]),
                           tags=dict(tags, cb="MetricEvaluator"), witness=wit)
